@@ -103,6 +103,11 @@ func init() {
 			Ideal: famGraph(3, 2, 5), IdealDeep: famGraph(3, 2, 7), IdealProps: []string{"P_C07"},
 			Proc: &ProcCheck{Prop: "C07", Scenarios: "SeqScenarios", IdealInvs: []string{"Serializable"}, Only: []string{"C07_final"}},
 			GenQuick: famGraph(3, 1, 4), GenThorough: famGraph(3, 2, 6), SampleQuick: 300, Probes: probeEdges,
+			// chains (sequence A B C, also with repeated ids) over tasks and over childless epics
+			GenMore: []SeqModel{
+				with(famGraph(3, 0, 4), func(m *SeqModel) { m.Name = "chains-tasks"; m.Extras = []string{"chains"}; m.StateArgs = nil; m.CmdNames = []string{"new_task", "sequence", "sequence_rm"} }),
+				with(famGraph(0, 3, 4), func(m *SeqModel) { m.Name = "chains-epics"; m.Extras = []string{"chains"}; m.StateArgs = nil; m.CmdNames = []string{"new_epic", "sequence", "sequence_rm"} }),
+			},
 			CraftQuick: famCraft(600, "prune", "compact"), CraftThorough: famCraft(20000, "prune", "compact"),
 			Sim: with(famGraph(4, 2, 14), func(m *SeqModel) { m.Extras = append(m.Extras, "chains", "badid") }), SimNumQuick: 60, SimNumThorough: 2000}
 	}
@@ -131,13 +136,13 @@ func init() {
 	}
 	registry["C11"] = func() Check {
 		return &SeqCheck{Prop: "C11",
-			Ideal: famPlan(3), IdealDeep: famPlan(4), IdealProps: []string{"P_C11"},
+			Ideal: famPlan(3), IdealDeep: famPlan(4), IdealProps: []string{"P_C11"}, Probes: probePlanIDs,
 			GenQuick: famPlan(2), GenThorough: famPlan(4), SampleQuick: 100,
 			Sim: famPlan(8), SimNumQuick: 60, SimNumThorough: 1500}
 	}
 	registry["C14"] = func() Check {
 		return &SeqCheck{Prop: "C14",
-			Ideal: famIds(2, 2, 4), IdealDeep: famIds(3, 2, 6), IdealProps: []string{"P_C14"}, Probes: probeEpicRef,
+			Ideal: famIds(2, 2, 4), IdealDeep: famIds(3, 2, 6), IdealProps: []string{"P_C14"}, Probes: append(append([]emitted{}, probeEpicRef...), probeIDOrder...),
 			Proc: &ProcCheck{Prop: "C14", Scenarios: "PruneScenarios", IdealInvs: []string{"Serializable"}, Only: []string{"C14_final"}},
 			GenQuick: famIds(2, 1, 4), GenThorough: famIds(2, 2, 6), SampleQuick: 100,
 			CraftQuick: famCraft(800, "prune", "compact"), CraftThorough: famCraft(30000, "prune", "compact"),
